@@ -236,6 +236,24 @@ def run(rng, tier, model_ok):
             items.append((a, None))
             items.append((b, None))
             pairs_rel.append((len(items) - 2, len(items) - 1))
+    # operators written tight between operands that are words (constants, facts named by one or several words): a word ends where
+    # the operator begins, with or without blanks on either side, also inside a product, a call and parentheses
+    words = ["pi", "e", "tau"] + facts[:6]
+    nword = 0
+    for a in words:
+        for b in words[:5]:
+            if a == b and len(words) > 1:
+                continue
+            for op in "-+*/":
+                ref = "(%s) %s (%s)" % (a, op, b)
+                for q in ("%s%s%s" % (a, op, b), "%s%s %s" % (a, op, b), "%s %s%s" % (a, op, b)):
+                    items.append((q, None)); items.append((ref, None)); pairs_rel.append((len(items) - 2, len(items) - 1)); nword += 1
+                items.append(("2 * %s%s%s" % (a, op, b), None)); items.append(("(2 * (%s)) %s (%s)" % (a, op, b) if op in "-+" else "2 * (%s) %s (%s)" % (a, op, b), None))
+                pairs_rel.append((len(items) - 2, len(items) - 1))
+                items.append(("round(%s%s%s, 2)" % (a, op, b), None)); items.append(("round(%s, 2)" % ref, None)); pairs_rel.append((len(items) - 2, len(items) - 1))
+                items.append(("(%s%s%s) * 3" % (a, op, b), None)); items.append(("(%s) * 3" % ref, None)); pairs_rel.append((len(items) - 2, len(items) - 1))
+                nword += 3
+    shapes["tight_operators_between_words"] = nword
     corpus = vlib.load_corpus("C06")
     items = [(q, None) for q in corpus] + items
     replies, failures, mismatches, ncoq = pipeline.run_queries(items, "C06", rng, tier, model_ok, budget_quick=2000)
@@ -243,15 +261,15 @@ def run(rng, tier, model_ok):
         ra, rb = replies[len(corpus) + i], replies[len(corpus) + j]
         va, vb = pipeline.single_value(ra), pipeline.single_value(rb)
         if vb is not None and va != vb:
-            failures.append({"input": items[len(corpus) + i][0], "why": "a cast after a fact named by several words must apply to the value found: "
-                             "with parentheses around the operand the answer is %s, without %s" % (vb, va)})
+            failures.append({"input": items[len(corpus) + i][0], "why": "grouping must not depend on the kind of operand or on the blanks: written as %r "
+                             "the answer is %s, here %s" % (items[len(corpus) + j][0], vb, va)})
     shapes["cast_after_fact"] = len(pairs_rel)
     distinct = {q for q, _ in items if sum(q.count(o) for o in OPS) >= 2}
     return {
         "evaluations": len(items), "distinct_nontrivial": len(distinct),
         "rule": "every operator sequence over + - * / ^ up to length %d with every full bracketing (printed with only the parentheses the "
                 "grammar needs, plus some redundant ones), random sequences of length 4-5 with sampled bracketings, random deeper trees, "
-                "some wrapped as function arguments, `to` after sums and products; random legal layouts incl. no blanks around * / ^ ( ) , "
+                "some wrapped as function arguments, `to` after sums and products, operators tight between word operands; random legal layouts incl. no blanks around * / ^ ( ) , "
                 "and blanks at both ends; non-trivial = distinct queries with at least two operators" % maxlen,
         "samples": [q for q, _ in items[len(corpus) + 100:len(corpus) + 106]],
         "mismatches": mismatches, "failures": failures,
